@@ -362,7 +362,10 @@ def gauss(ctx, R="R-C20-gauss"):
     for x in S.walk(z):
         if x.op == "add" and any(S.is_num(a) and a.value != 0 for a in x.args):
             for a in x.args:
+                while a.op == "neg":
+                    a = a.args[0]
                 terms = a.args if a.op == "mul" else (a,)
+                terms = [t.args[0] if t.op == "neg" else t for t in terms]
                 if any(t.op == "call" and isinstance(t.args[0], str) and t.args[0].split(".")[-1] == "erf" for t in terms):
                     ctx.bad(R, f, f.node, "a probability is formed as %s: in float64 this is a multiple of 2**-53 (1.1e-16), so tail probabilities "
                             "between 1e-20 and 1e-16 are not resolved and the quantile there is off by far more than 1e-6 standard deviations "
